@@ -61,6 +61,12 @@ func (rl *respDeserializer) getNextValueEx(endAllowed bool) (value respValue, va
 		return
 	}
 
+	if len(line) == 0 {
+		// a blank line is not a RESP value
+		valid = false
+		return
+	}
+
 	if line[0] == '+' {
 		// simple string
 		rl.moveToNextLine()
